@@ -19,6 +19,9 @@
 #include "symbol.h"
 #include "fbox.h"
 #include "util.h"
+#ifdef ALDOR_VERIF
+#include "verifhook.h"
+#endif
 
 Bool	cfoldDebug	= false;
 #define cfoldDEBUG	DEBUG_IF(cfold)	afprintf
@@ -140,6 +143,92 @@ cfoldExpr(Foam expr)
 	}
 	return newExpr;
 }
+
+#ifdef ALDOR_VERIF
+/* H4: one ndjson BCall event per builtin application folded at compile time. */
+local void
+verifCFoldVal(FILE *f, Foam v)
+{
+	int	i;
+	String	s;
+	UByte	*pb;
+	switch (foamTag(v)) {
+	case FOAM_Bool: fprintf(f, "{\"b\":%ld}", (long) v->foamBool.BoolData); break;
+	case FOAM_Char: fprintf(f, "{\"c\":%ld}", (long) v->foamChar.CharData); break;
+	case FOAM_Byte: fprintf(f, "{\"w\":\"%ld\"}", (long) v->foamByte.ByteData); break;
+	case FOAM_HInt: fprintf(f, "{\"w\":\"%ld\"}", (long) v->foamHInt.HIntData); break;
+	case FOAM_SInt: fprintf(f, "{\"w\":\"%ld\"}", (long) v->foamSInt.SIntData); break;
+	case FOAM_BInt:
+		s = bintToString(v->foamBInt.BIntData);
+		fprintf(f, "{\"z\":\"%s\"}", s);
+		strFree(s);
+		break;
+	case FOAM_SFlo:
+		pb = (UByte *) &v->foamSFlo.SFloData;
+		fprintf(f, "{\"f\":\"");
+		for (i = 0; i < (int) sizeof(v->foamSFlo.SFloData); i++) fprintf(f, "%02x", pb[i]);
+		fprintf(f, "\"}");
+		break;
+	case FOAM_DFlo:
+		pb = (UByte *) &v->foamDFlo.DFloData;
+		fprintf(f, "{\"f\":\"");
+		for (i = 0; i < (int) sizeof(v->foamDFlo.DFloData); i++) fprintf(f, "%02x", pb[i]);
+		fprintf(f, "\"}");
+		break;
+	case FOAM_Arr:
+		fprintf(f, "{\"s\":[");
+		for (i = 0; i < foamArgc(v) - 1 && v->foamArr.eltv[i]; i++)
+			fprintf(f, "%s%d", i ? "," : "", (int) (UByte) v->foamArr.eltv[i]);
+		fprintf(f, "]}");
+		break;
+	default:
+		fprintf(f, "null");
+		break;
+	}
+}
+
+local Bool
+verifCFoldOk(Foam v)
+{
+	switch (foamTag(v)) {
+	case FOAM_Bool: case FOAM_Char: case FOAM_Byte: case FOAM_HInt:
+	case FOAM_SInt: case FOAM_BInt: case FOAM_SFlo: case FOAM_DFlo:
+		return true;
+	case FOAM_Arr:
+		return v->foamArr.baseType == FOAM_Char;
+	default:
+		return false;
+	}
+}
+
+local void
+verifBCallCFold(FoamBValTag tag, int nargs, Foam *argv, Foam res)
+{
+	static int	on = -1;
+	FILE		*f;
+	int		i;
+
+	if (on < 0) {
+		const char *p = getenv("ALDOR_VERIF_BCALL");
+		on = VERIF_TRACING() && (!p || strstr(p, "cfold") != 0);
+	}
+	if (!on) return;
+	/* an event with an operand kind the schema does not cover is dropped whole */
+	for (i = 0; i < nargs; i++)
+		if (!verifCFoldOk(argv[i])) return;
+	if (!verifCFoldOk(res)) return;
+	f = verifTraceFile_();
+	fprintf(f, "{\"ev\":\"BCall\",\"who\":\"cfold\",\"op\":\"%s\",\"args\":[", foamBValStr(tag));
+	for (i = 0; i < nargs; i++) {
+		if (i) fputc(',', f);
+		verifCFoldVal(f, argv[i]);
+	}
+	fprintf(f, "],\"res\":[");
+	verifCFoldVal(f, res);
+	fprintf(f, "]}\n");
+	fflush(f);
+}
+#endif
 
 local Foam
 cfoldBCall(Foam bcall)
@@ -1084,6 +1173,9 @@ cfoldBCall(Foam bcall)
 	  default:
 		break;
 	}
+#ifdef ALDOR_VERIF
+	if (foam != bcall) verifBCallCFold(tag, nargs, argv, foam);
+#endif
 	if (foam != bcall)
 		for(i=0; i < nargs; i++) stoFree(argv[i]);
 	return foam;
